@@ -352,6 +352,62 @@ def plan_build_trace(rng, n=6):
     return {"hdr": {"universe": "plans"}, "ev": ev}
 
 
+def moved_dist_events():
+    """A distribution node that the graph has already been walked over gets its evaluation point afterwards, and is later
+    moved to another variable (pop, a.dist_node = None, b.dist_node = prior, rebuild): every build records the wiring
+    that holds at that moment.  Plan ids: 1 a_value, 2 a_var_value, 3 b_value, 4 b_var_value, 5 the distribution."""
+    import tensorflow_probability.substrates.jax.distributions as tfd
+    ev = []
+    a, b = lsl.Var(jnp.float32(1.0), name="a"), lsl.Var(jnp.float32(2.0), name="b")
+    for v, (i, j) in ((a, (1, 2)), (b, (3, 4))):
+        v.value_node.name, v.var_value_node.name = f"n{i}", f"n{j}"
+    prior = lsl.Dist(tfd.Normal, loc=0.0, scale=1.0, _name="n5")
+    lsl.GraphBuilder().add(prior)            # the builder walks the graph of the still unattached distribution node
+    prior.all_input_nodes()
+    ids = {f"n{i}": i for i in range(1, 6)}
+
+    def built(at):
+        m = lsl.GraphBuilder().add(a, b).build_model()
+        own = [nd for nd in m._sorted_nodes if nd.name in ids]
+        inp = [[], [1], [], [3], [at]]
+        e = {"ev": "plan_built", "inp": inp, "kinds": ["v", "p", "v", "p", "d"], "order": [ids[nd.name] for nd in own],
+             "outs": [sorted(ids[o.name] for o in m.nodes[f"n{i}"].outputs if o.name in ids) for i in range(1, 6)],
+             "all_names": sorted(m.nodes) + sorted("var:" + v for v in m.vars),
+             "frozen": all(nd.model is m for nd in m.nodes.values()),
+             "var_nodes_present": all(nd.name in m.nodes for v in m.vars.values() for nd in v.nodes)}
+        return m, e
+
+    a.dist_node = prior
+    m, e = built(2)
+    ev.append(e)
+    m.pop_nodes_and_vars()
+    a.dist_node = None
+    b.dist_node = prior
+    m, e = built(4)
+    ev.append(e)
+    return {"hdr": {"universe": "plans"}, "ev": ev}
+
+
+def user_total_nodes_events():
+    """A builder with a user-defined log-likelihood node is built with copy=True several times: every model uses the
+    user's node (the builder keeps what it was given)."""
+    import tensorflow_probability.substrates.jax.distributions as tfd
+    ev = {"ev": "copy_behaviour", "how": "build_copy_true_user_nodes", "crash": "", "copy_follows_its_own_values": False,
+          "original_unaffected": True, "copy_unaffected_by_original": True}
+    try:
+        mu = lsl.Var(jnp.float32(0.5), lsl.Dist(tfd.Normal, loc=0.0, scale=1.0), name="mu")
+        y = lsl.Var(jnp.asarray([0.2, 0.9], jnp.float32), lsl.Dist(tfd.Normal, loc=mu, scale=1.0), name="y")
+        y.observed = True
+        gb = lsl.GraphBuilder().add(y)
+        gb.log_lik_node = lsl.Calc(lambda ll: 2.0 * jnp.sum(ll), y.dist_node, _name="tempered_lik")
+        lls = [float(gb.build_model(copy=True).log_lik) for _ in range(3)]
+        direct = 2.0 * float(np.sum(np.asarray(tfd.Normal(0.5, 1.0).log_prob(jnp.asarray([0.2, 0.9], jnp.float32)))))
+        ev["copy_follows_its_own_values"] = all(abs(v - direct) < 1e-4 for v in lls)
+    except Exception as ex:  # noqa: BLE001
+        ev["crash"] = f"{type(ex).__name__}: {ex}"[:200]
+    return {"hdr": {"universe": "plans"}, "ev": [ev]}
+
+
 def rejected_build_events():
     """Graphs that must be rejected: a cycle that runs through the `at` edge of a distribution node, duplicate node /
     variable names, two different groups of the same name (also when one holds only nodes and the other only vars)."""
